@@ -94,8 +94,41 @@ Behaviour(c) ==
                 Pt(c, qs[i][1]) @@ [op |-> "q", h |-> 1, dim |-> 3, depth |-> qs[i][1], props |-> qs[i][2],
                                     expect |-> <<[k |-> "len", n |-> Total(qs[i][2])]>> \o Expect(c, qs[i][1], qs[i][2], 1)]]]
 
-VARIABLE cfg
-Init == cfg \in Config
-Next == UNCHANGED cfg
+VARIABLES cfg, ihist
+Init == cfg \in Config /\ ihist = <<>>
+Next == UNCHANGED <<cfg, ihist>>
 Emit == PrintT(<<"B", ToJson(Behaviour(cfg))>>)
+
+(***************************************************************************)
+(* Interleaving machine.  The background of a world is determined by that  *)
+(* world's own constants: whatever other worlds live in the process and    *)
+(* whatever was asked of them before, the answer is the world's own        *)
+(* adiabat.  State: the history of (world, depth) queries against three    *)
+(* live worlds that differ in expansivity / specific heat / potential      *)
+(* temperature but share the gravity magnitude; TLC enumerates every       *)
+(* history of length MaxInter and each is replayed with all three worlds   *)
+(* alive in one process.  Mech: World::properties reads only members of    *)
+(* its own World (world.cc:421-445) -- no state is shared, so the          *)
+(* mechanism's answer does not mention the history.                        *)
+(***************************************************************************)
+CONSTANT MaxInter
+IWorlds == << [tp |-> 1600, alpha |-> Dec(35, -6), cp |-> 1250, g |-> Dec(10, 0), sph |-> FALSE, force |-> FALSE, ts |-> 273, fs |-> "none"],
+              [tp |-> 1600, alpha |-> Dec(1, -4),  cp |-> 1250, g |-> Dec(10, 0), sph |-> TRUE,  force |-> FALSE, ts |-> 273, fs |-> "none"],
+              [tp |-> 1000, alpha |-> Dec(35, -6), cp |-> 1000, g |-> Dec(10, 0), sph |-> FALSE, force |-> TRUE,  ts |-> 300, fs |-> "miss"] >>
+IDepths == {100 * Km, 2890 * Km}
+IInit == cfg = IWorlds[1] /\ ihist = <<>>
+INext == /\ Len(ihist) < MaxInter
+         /\ \E w \in 1..Len(IWorlds), d \in IDepths : ihist' = Append(ihist, <<w, d>>)
+         /\ UNCHANGED cfg
+MechI(h, k) == Adiabat(IWorlds[h[k][1]], h[k][2])           \* no term of the history other than the k-th query itself
+PropI(h, k) == ExpectT(IWorlds[h[k][1]], h[k][2])
+IMechOK == \A k \in 1..Len(ihist) : MechI(ihist, k) = PropI(ihist, k)
+IBehaviour(h) ==
+  [id |-> <<"bg-interleaved", h>>, labels |-> <<"background", "interleaved-worlds">>,
+   steps |-> [w \in 1..Len(IWorlds) |-> [op |-> "create", h |-> w, wb |-> Doc(IWorlds[w])]] \o
+             [k \in 1..Len(h) |->
+                LET c == IWorlds[h[k][1]]  props == IF k % 2 = 1 THEN <<PT>> ELSE <<PTag, PT, PV>>
+                IN Pt(c, h[k][2]) @@ [op |-> "q", h |-> h[k][1], dim |-> 3, depth |-> h[k][2], props |-> props,
+                                      expect |-> <<[k |-> "len", n |-> Total(props)]>> \o Expect(c, h[k][2], props, 1)]]]
+IEmit == Len(ihist) = MaxInter => PrintT(<<"B", ToJson(IBehaviour(ihist))>>)
 =============================================================================
